@@ -15,6 +15,8 @@ R-INIESC   inverse escaping: the parser un-escapes (read_context::handle_escape)
            (the complement table of char_is_property_value_char, plus the backslash).  Decided from
            the call graph of write_property: some function reachable from it has to emit a
            backslash in front of those characters.
+R-INIBARE  write_property emits ` = ` only under an emptiness test of the value (a value-less property is a
+           bare name; `name = ` followed by a line end makes the parser read the next line as the value).
 """
 from engine.facts import walk, call_args, expr_str
 from engine.cfg import strip_casts
@@ -84,7 +86,7 @@ def show(s):
 def run(ctx):
     ctx.clause = ("the INI writer and parser agree on every structural token of the grammar, every such token is a "
                   "delimiter for the parser, and the writer re-escapes what the parser un-escapes")
-    ctx.rules = ["R-INITOK", "R-INIDELIM", "R-INIESC"]
+    ctx.rules = ["R-INITOK", "R-INIDELIM", "R-INIESC", "R-INIBARE"]
     P = ctx.program(UNITS)
     delim = char_table(_fn(P, "char_is_delimiter")) | char_table(_fn(P, "char_is_comment_start"))
     all_tokens = set()
@@ -144,5 +146,23 @@ def run(ctx):
            "(handle_escape/read_string), but nothing reachable from write_property emits a backslash%s: a value "
            "holding one of %s is written bare and is cut / split / re-unescaped when the output is read back" % (
                "" if not escapers else " for %s" % show(missing), show(terminators)))
+    # ---- R-INIBARE: a property without a value is written as a bare name.  After `=` the parser skips white space
+    # across line ends, so `name = ` followed by a newline swallows the next line: the assignment token may only be
+    # emitted when the serialised value is known to be non-empty (a test of .empty() on it, or on the property's
+    # has_empty_value()), not on a pointer that the property model never leaves null.
+    bare_ok = False
+    why = "no insertion of the assignment token found"
+    for n in wp.nodes():
+        if n["k"] == "CXXOperatorCallExpr" and n.get("op") == "<<":
+            a = strip_casts(call_args(n)[1])
+            if a is not None and a["k"] == "StringLiteral" and "=" in (a.get("s") or ""):
+                guards = [x for x in wp.ancestors(n) if x["k"] == "IfStmt"]
+                txt = " && ".join(expr_str(wp, g["c"][0]) for g in guards)
+                bare_ok = any(any(y["k"] == "CXXMemberCallExpr" and (wp.decl(y) or {}).get("n") in ("empty", "has_empty_value")
+                                  for y in walk(g["c"][0])) for g in guards)
+                why = "the `=` is emitted under `%s`" % (txt or "no condition")
+    ctx.ob("R-INIBARE", "write_property emits the assignment only for a non-empty value", bare_ok, wp.loc(),
+           why if bare_ok else why + ": that is not an emptiness test of the value, so a property without a value is written "
+           "as `name = ` and the parser takes the next line for its value (or drops the property at the end of a section)")
     ctx.assume("that trimming, line/column bookkeeping and the value model (string vs list of one element) round-trip "
                "is runtime behaviour, not decided here")
